@@ -23,6 +23,15 @@ def final(env):
             # accepted by a process that had already been reaped: nobody
             # ever matches the job to its dead owner
             sig = 'F8:ack-after-reap'
+        elif env.closed and not lost and not any(
+                p.get('state') in ('taken', 'done', 'putfail')
+                for p in rec['parts'].values()) and \
+                len([p for p in env.pool._pool
+                     if env.workers[p.pid].alive]) < env.pool._processes:
+            # close() stops supervision: a worker that died afterwards was
+            # not replaced and this job, still waiting in the task queue, is
+            # never taken by anybody (F18, the same root cause as in C07)
+            sig = 'F18:no-replacement-after-close'
         return ('job %d (%s) never resolves (parts %r, cache %r, log tail %r)'
                 % (j, rec['kind'], rec['parts'], sorted(env.pool._cache),
                    env.log[-6:]), sig)
